@@ -255,11 +255,15 @@ def check(case):
         except PropertyViolation as v:
             raise PropertyViolation("after-second-inplace-update:" + v.bucket, "after a second in-place parameter update (back to the first values): " + v.message, v.detail)
     if not r.get("excluded"):
-        gen.reinit_and_set(state, case["state"])
+        mir = gen.mirrored(case["state"])
+        gen.reinit_and_set(state, mir)
         try:
-            check_round(case, state)
+            check_round(dict(case, state=mir), state)
         except PropertyViolation as v:
-            raise PropertyViolation("after-reinitialise:" + v.bucket, "after reinitialize_parameters() and writing the parameters again: " + v.message, v.detail)
+            raise PropertyViolation("after-reinitialise:" + v.bucket, "after reinitialize_parameters() and writing OTHER parameters into the new parameter objects: " + v.message, v.detail)
+        gen.set_net(state.rbm_am, case["state"]["am"])
+        if case["state"].get("ph"):
+            gen.set_net(state.rbm_ph, case["state"]["ph"])
     if case["state"].get("unitaries2"):
         # history: the state loads a file written by a twin with the same parameters but OTHER user unitaries for the same letters;
         # from then on gradients in rotated bases must follow the loaded dictionary
